@@ -273,6 +273,17 @@ def d4(cx: Cx, ob: Ob) -> None:
     if not readers or not writers:
         ob.undecide("_file_helper does not use csv.reader / csv.writer")
         return
+    from ..rules import csv_agreement, csv_dialect
+
+    csv_agreement(ob, fn, fn, writers[0], readers[0], "_file_helper")
+    rq = csv_dialect(readers[0]).get("quoting")
+    if rq is not None and "QUOTE_NONE" in show(rq):
+        ob.violate(
+            fn.qualname,
+            fn.where,
+            "_file_helper reads with quoting=QUOTE_NONE: a quoted cell is handed to the conversion with its quote characters (and a quoted cell containing the delimiter is split into two columns), so the column is not transformed as the scalar method would transform the cell's value",
+            detail="reader-quote-none",
+        )
     rd, wd = dict(readers[0][3]).get("delimiter"), dict(writers[0][3]).get("delimiter")
     ob.site(f"{fn.where} {fn.qualname}", f"delimiters: read {show(rd)[:30] if rd else 'default'} / write {show(wd)[:30] if wd else 'default'}")
     if rd != wd:
